@@ -219,6 +219,16 @@ def run(prop, tier=None, replay=None):
             bad = [x["o"] for x in r["out"] if x["o"]["res"] not in ("ok", "fse")]
             o = bad[0]
             sig = {"clause": "escape", "type": o.get("type"), "site": o.get("site"), "via": o.get("via")}
+            if o.get("type") == "RecursionError":
+                # known finding KF-C06-3 is about inputs nested deeper than about 36 bracket levels, nothing else
+                depth = best = 0
+                for ch in (c["src"] if isinstance(c["src"], str) else ""):
+                    if ch in "([":
+                        depth += 1
+                        best = max(best, depth)
+                    elif ch in ")]":
+                        depth -= 1
+                sig["brackets_nested_30_deep_or_more"] = best >= 30
             what = "C06: %s escaped from %s (via %s)%s: %s" % (o.get("type"), o.get("site"), o.get("via"), " while printing" if o.get("while") else "", o.get("msg"))
         src = c["src"] if c["fam"] != "badbyte" else repr(bytes(c["src"]))
         chk.violation(sig, what + "\n" + str(src)[:500], {"src": c["src"], "prov": c["prov"], "fam": c["fam"]})
